@@ -78,6 +78,9 @@ func (SlidingWindow) New(cfg Config) fiber.Handler {
 		// Calculate when it resets in seconds
 		resetInSec := e.exp - ts
 
+		// Remember the window this hit is counted in
+		windowExp := e.exp
+
 		// weight = time until current window reset / total window length
 		weight := float64(resetInSec) / float64(expiration)
 
@@ -124,9 +127,19 @@ func (SlidingWindow) New(cfg Config) fiber.Handler {
 			// Lock entry
 			mux.Lock()
 			e = manager.get(key)
-			e.currHits--
-			remaining++
-			manager.set(key, e, cfg.Expiration)
+			// Take the hit back from the window it was counted in, which by now may
+			// be the previous one; it must never be subtracted from a later window.
+			switch e.exp {
+			case windowExp:
+				e.currHits--
+				remaining++
+				manager.set(key, e, cfg.Expiration)
+			case windowExp + expiration:
+				e.prevHits--
+				remaining++
+				manager.set(key, e, cfg.Expiration)
+			default:
+			}
 			// Unlock entry
 			mux.Unlock()
 		}
